@@ -1409,12 +1409,16 @@ protected:
         return finalCRLF + 2;
       }
 
-      // Skip chunk data + trailing \r\n
-      pos += chunkSize + 2;
-      if (pos > data.length())
+      // Skip chunk data + trailing \r\n. Subtraction-based bounds: the former
+      // `pos += chunkSize + 2; if (pos > data.length())` wraps size_t for a chunk
+      // size near SIZE_MAX (e.g. "FFFFFFFFFFFFFFEC"), moving pos BACKWARDS onto the
+      // same chunk-size line - an endless loop on the I/O thread.
+      const std::size_t available = data.length() - pos; // pos <= length: CRLF was found
+      if (available < chunkSize || available - chunkSize < 2)
       {
         return std::string::npos; // Need more data
       }
+      pos += chunkSize + 2;
     }
 
     return std::string::npos;
